@@ -39,6 +39,9 @@ def check(ctx):
     c10.rules_prepare_frame(ctx, "R3")
     # R5: merged update has no effect besides its components' update
     c12.check_loop_method(ctx, F, "R5", "update", mutable=False)
+    # R7: a property without data gets an empty sub-timeline only if the generated build hands the builder's keyframes to the
+    # splitter as they are - one sub-timeline per animated field, built from the arguments' own keyframe vector (C17/G4)
+    D.rule_wiring(ctx, "R7")
     # R6: in a state animator the values are written only by Timeline::update of the current state's timeline (so a property
     # that timeline does not animate keeps what earlier states left in it): advance's summary and the animator's state
     # fields (C06/R1-R2), the writers of each field (C05/R8)
